@@ -1,6 +1,7 @@
 package main
 
 import (
+	"bytes"
 	"fmt"
 	"os"
 	"path/filepath"
@@ -8,6 +9,7 @@ import (
 	"sort"
 	"strings"
 	"sync/atomic"
+	"time"
 
 	"github.com/goreleaser/nfpm/v2"
 	"github.com/goreleaser/nfpm/v2/files"
@@ -423,6 +425,109 @@ func c13(run *ev.Run, tier string) {
 	run.Set("get_results_compared", leafCmp)
 	run.Set("packages_built_for_confirmation", built)
 
+	// part 2c: ONE parsed configuration, packages for all formats built from it in
+	// every sampled order: what a format ships must be its own effective settings
+	// (= what a fresh parse gives), whatever was built from the configuration
+	// before; relations written deb-style, config|noreplace entries and scripts
+	// that exist only in an override block are the settings most easily bent on
+	// the way
+	{
+		wd := filepath.Join(dir, "shared")
+		_ = os.MkdirAll(wd, 0o755)
+		pre, post := filepath.Join(wd, "preupgrade.sh"), filepath.Join(wd, "postupgrade.sh")
+		_ = os.WriteFile(pre, []byte("echo verif-pre-upgrade\n"), 0o755)
+		_ = os.WriteFile(post, []byte("echo verif-post-upgrade\n"), 0o755)
+		c := baseCfg(false)
+		c.Info.MTime = time.Unix(1600000000, 0).UTC()
+		c.Info.RPM.BuildHost = "verif-host"
+		c.Info.Depends = []string{"libfoo (>= 1.2)", "plain", "libbar (<< 3)"}
+		c.Info.Provides = []string{"virt (= 1.0)", "virt2"}
+		c.Info.Replaces = []string{"old (<< 1.0)"}
+		c.Info.Conflicts = []string{"foe (>= 9)"}
+		c.Info.Recommends = []string{"rec (>= 2)"}
+		c.Info.Suggests = []string{"sug (>= 3)"}
+		c.Info.Contents = files.Contents{
+			{Source: payload, Destination: "/opt/ovr/p.txt"},
+			{Source: payload, Destination: "/etc/ovr/noreplace.conf", Type: "config|noreplace"},
+			{Source: payload, Destination: "/etc/ovr/missingok.conf", Type: "config|missingok"},
+			{Source: payload, Destination: "/etc/ovr/rpm-only.conf", Type: "config|noreplace", Packager: "rpm"},
+		}
+		c.Overrides = map[string]*nfpm.Overridables{
+			"archlinux": {ArchLinux: nfpm.ArchLinux{Scripts: nfpm.ArchLinuxScripts{PreUpgrade: pre, PostUpgrade: post}}},
+			"apk":       {Depends: []string{"apk-dep>1"}},
+		}
+		y, _ := configYAML(c)
+		fresh := map[string][]byte{}
+		ok := true
+		for _, f := range formats {
+			res := buildYAML(y, f)
+			if res.Err != nil || res.Panic != "" {
+				run.Violate("C13/"+f+"/build-error", map[string]any{"shared_config": true, "error": fmt.Sprint(res.Err, ev.Short(res.Panic, 200)), "yaml": ev.Short(y, 800)})
+				ok = false
+				continue
+			}
+			fresh[f] = res.Bytes
+			p := dec.Decode(f, res.Bytes, false)
+			switch f {
+			case "deb", "ipk":
+				if v, _ := p.MetaGet("Depends"); v != "libfoo (>= 1.2), plain, libbar (<< 3)" {
+					run.Violate("C13/"+f+"/package-depends-differ-from-effective-settings", map[string]any{"shared_config": true, "got": v})
+				}
+			case "rpm":
+				idx := indexOf(p.Rpm.Hdr.StrList(dec.RpmTagBasenames), "noreplace.conf")
+				flags := p.Rpm.Hdr.IntList(dec.RpmTagFileFlags)
+				if idx < 0 || idx >= len(flags) || flags[idx]&(1<<4) == 0 || flags[idx]&1 == 0 {
+					run.Violate("C13/rpm/config-noreplace-flag-missing", map[string]any{"index": idx, "flags": flags})
+				}
+			case "archlinux":
+				inst := p.Install
+				for _, want := range []string{"pre_upgrade", "verif-pre-upgrade", "post_upgrade", "verif-post-upgrade"} {
+					if !bytes.Contains(inst, []byte(want)) {
+						run.Violate("C13/archlinux/override-only-upgrade-scripts-not-shipped", map[string]any{"missing": want, "install_file": ev.Short(string(inst), 300)})
+						break
+					}
+				}
+			}
+		}
+		if ok {
+			var sharedBuilt int64
+			nord := 12
+			if tier == "thorough" {
+				nord = len(orders)
+			}
+			for oi := 0; oi < nord; oi++ {
+				order := orders[(oi*(len(orders)/nord))%len(orders)]
+				cfg, err := parseYAML(y, nil)
+				if err != nil {
+					run.Inconclusive(err.Error())
+					break
+				}
+				run.Case(fmt.Sprintf("shared-config-build-order|%v", order), true)
+				for k, f := range order {
+					info, err := infoFor(&cfg, f)
+					if err != nil {
+						run.Violate("C13/"+f+"/get-error", map[string]any{"order": order, "error": err.Error()})
+						continue
+					}
+					res := packageInfo(f, info)
+					sharedBuilt++
+					if res.Err != nil || res.Panic != "" {
+						run.Violate("C13/"+f+"/build-error", map[string]any{"order": order, "error": fmt.Sprint(res.Err, ev.Short(res.Panic, 200))})
+						continue
+					}
+					if !bytes.Equal(res.Bytes, fresh[f]) {
+						after := "first"
+						if k > 0 {
+							after = "after-" + order[k-1]
+						}
+						run.Violate("C13/"+f+"/effective-settings-depend-on-formats-built-before", map[string]any{"order": order, "position": k, "built_before": order[:k], "after": after, "first_difference_at": firstDiffAt(fresh[f], res.Bytes)})
+					}
+				}
+			}
+			run.Set("shared_config_packages_built", sharedBuilt)
+		}
+	}
+
 	// part 2b: the command line tool uses the same effective settings, also when
 	// the packager is inferred from the target's extension
 	if bin := nfpmBin(run); bin != "" {
@@ -479,6 +584,46 @@ func c13(run *ev.Run, tier string) {
 					}
 					run.Violate("C13/cli/"+f+"/override-block-not-applied/"+kind, map[string]any{"got": got, "want": "dep-for-" + f})
 				}
+			}
+		}
+		// other spellings of a packager name (-p DEB, target out.Rpm): rejecting
+		// them is fine; a package that is written must carry the override block
+		for _, sp := range []struct{ f, flag, ext string }{{"deb", "DEB", ""}, {"rpm", "Rpm", ""}, {"apk", "APK", ""}, {"deb", "", "DEB"}, {"rpm", "", "Rpm"}, {"ipk", "", "IPK"}} {
+			ext := sp.ext
+			if ext == "" {
+				ext = "pkg"
+			}
+			tgt := filepath.Join(wd, fmt.Sprintf("spelled-%s%s.%s", sp.flag, sp.ext, ext))
+			args := []string{"package", "-f", cfgp, "-t", tgt}
+			if sp.flag != "" {
+				args = append(args, "-p", sp.flag)
+			}
+			_, _, code, err := runCmd(nil, wd, nil, bin, args...)
+			run.Case(fmt.Sprintf("cli-override|spelling|-p=%q|ext=%q", sp.flag, sp.ext), true)
+			raw, rerr := os.ReadFile(tgt)
+			if err != nil || code != 0 || rerr != nil {
+				continue
+			}
+			p := dec.Decode(sp.f, raw, false)
+			if len(p.Errs) > 0 {
+				continue // not a package of that format: nothing claimed
+			}
+			var got []string
+			switch sp.f {
+			case "deb", "ipk":
+				v, _ := p.MetaGet("Depends")
+				got = splitList(v)
+			case "rpm":
+				for _, n := range p.Rpm.Hdr.StrList(dec.RpmTagRequireName) {
+					if !strings.HasPrefix(n, "rpmlib(") {
+						got = append(got, n)
+					}
+				}
+			default:
+				got = dec.GetAll(p.Meta, "depend")
+			}
+			if strings.Join(got, "|") != "dep-for-"+sp.f {
+				run.Violate("C13/cli/"+sp.f+"/override-block-not-applied/packager-spelled-differently", map[string]any{"packager_flag": sp.flag, "target_extension": sp.ext, "got": got, "want": "dep-for-" + sp.f})
 			}
 		}
 	}
